@@ -13,8 +13,10 @@ import (
 	"io"
 	mrand "math/rand"
 	"os"
+	"sort"
 	"strconv"
 
+	"github.com/tonkeeper/tongo/code"
 	"github.com/tonkeeper/tongo/ton"
 	"github.com/tonkeeper/tongo/utils"
 
@@ -335,13 +337,28 @@ func mutate(r *mrand.Rand, s []byte, alphabet string) []byte {
 	return b
 }
 
+// MethodTable records the hand-written table code.Methods (get-method id -> name), sorted by id.
+func MethodTable(w *ev.Writer) {
+	var ids []int64
+	for id := range code.Methods {
+		ids = append(ids, id)
+	}
+	sort.Slice(ids, func(i, j int) bool { return ids[i] < ids[j] })
+	for _, id := range ids {
+		w.Emit(ev.M{"k": "MethodTable", "name": hs(string(code.Methods[id])), "id": strconv.FormatInt(id, 10), "panic": ""})
+	}
+}
+
 // Drive (C->S): random and boundary inputs through the real API.
 func Drive(w *ev.Writer, o Opts) {
 	w.Sync = true
+	if o.Shard == 0 {
+		MethodTable(w)
+	}
 	r := mrand.New(mrand.NewSource(o.Seed*1000003 + int64(o.Shard)*7919 + 23))
-	n := 60
+	n := 100
 	if o.Tier == "thorough" {
-		n = 700
+		n = 2500
 	}
 	bytesN := func(k int) []byte { b := make([]byte, k); r.Read(b); return b }
 	wcs := []int32{-2147483648, -2147483647, -65536, -256, -129, -128, -1, 0, 1, 127, 128, 255, 65535, 2147483646, 2147483647}
